@@ -88,7 +88,7 @@ func (f *Reduce) Call(s *slip.Scope, args slip.List, depth int) (result slip.Obj
 		}
 	}
 	if v, has := slip.GetArgsKeyValue(args, slip.Symbol(":start")); has {
-		if num, ok := v.(slip.Fixnum); ok && 0 <= num && int(num) < len(list) {
+		if num, ok := v.(slip.Fixnum); ok && 0 <= num && int(num) <= len(list) {
 			list = list[int(num):]
 		} else {
 			slip.TypePanic(s, depth, ":start", v, fmt.Sprintf("fixnum between 0 and %d", len(list)))
@@ -96,9 +96,12 @@ func (f *Reduce) Call(s *slip.Scope, args slip.List, depth int) (result slip.Obj
 	}
 	if v, has := slip.GetArgsKeyValue(args, slip.Symbol(":key")); has {
 		keyFunc := ResolveToCaller(s, v, d2)
+		// The keys go into a list of their own, not into the caller's sequence.
+		keys := make(slip.List, len(list))
 		for i, v2 := range list {
-			list[i] = keyFunc.Call(s, slip.List{v2}, d2)
+			keys[i] = keyFunc.Call(s, slip.List{v2}, d2)
 		}
+		list = keys
 	}
 	var hasInit bool
 	if v, has := slip.GetArgsKeyValue(args, slip.Symbol(":initial-value")); has {
